@@ -1,13 +1,7 @@
 #!/bin/bash
-# usage: tools/try_seed.sh <seed dir name> [props...]   applies the seeded patch to /repo, runs checks, reverts
+# usage: tools/try_seed.sh <seed dir name> [props...]   applies the seeded patch to the private worktree /tmp/wtx (never to
+# /repo, which background runs read) and runs the checks against it
 seed=$1; shift
 props="$@"
 [ -z "$props" ] && props=$(echo $seed | cut -d- -f1)
-cd /repo || exit 2
-if ! git diff --quiet; then echo "repo dirty"; exit 2; fi
-git apply --3way /verif/seeded/$seed/patch.diff 2>/dev/null || { git reset -q --hard HEAD; git apply /verif/seeded/$seed/patch.diff; } || { echo "patch does not apply"; git reset -q --hard HEAD; exit 2; }
-git reset -q
-for p in $props; do
-  (cd /verif && ./check $p --no-evidence > /tmp/try_seed.out 2>&1; echo "[$seed] $p exit=$?"; grep -E "VIOLATION|ANALYSIS-ERROR|^antismash" /tmp/try_seed.out | cut -c1-300)
-done
-git checkout -- .
+exec /verif/tools/nd.sh seeded/$seed $props
